@@ -40,6 +40,9 @@ pub enum Op {
     /// it. tamper: 0 none, 1 nonce, 2 file name, 3 MIME type, 4 content hash, 5 scheme version,
     /// 6 ciphertext bit flip, 7 truncation
     MediaDownload { msg: EvRef, tamper: u8, seed: u32 },
+    /// a client encrypts a file for upload now and announces it with a later SendMsg of its own
+    /// (the upload takes time: commits may be applied in between)
+    MediaEncrypt { g: usize, tag: u32 },
     /// an admin encrypts a group image (format 2 = seed in image_key, 1 = legacy direct key) and
     /// publishes hash / key / nonce in the group data
     SetGroupImage { g: usize, seed: u32, format: u8 },
@@ -219,6 +222,12 @@ pub struct World {
     pub group_blobs: BTreeMap<String, (Vec<u8>, Vec<u8>)>,
     /// the last file announced per group (plain bytes, MIME type)
     pub last_media: BTreeMap<usize, (Vec<u8>, &'static str)>,
+    /// (node, group) -> upload encrypted earlier and not announced yet: imeta tag, ciphertext,
+    /// reference plaintext, (epoch, state) the client stood in when it encrypted
+    pub pending_uploads: BTreeMap<(usize, usize), (Tag, Vec<u8>, Vec<u8>, (u64, String))>,
+    /// announcing message -> (epoch, state) the file was encrypted in, when that differs from
+    /// the state the message was created in
+    pub media_enc_state: BTreeMap<EvRef, (u64, String)>,
     /// Nostr group ids groups were (or are being) rotated to: (group, new id). The id becomes
     /// public as soon as the first event tagged with it is on a relay.
     pub rotations: Vec<(usize, [u8; 32])>,
@@ -313,6 +322,8 @@ impl World {
             count_ticks: false,
             group_blobs: BTreeMap::new(),
             last_media: BTreeMap::new(),
+            pending_uploads: BTreeMap::new(),
+            media_enc_state: BTreeMap::new(),
             rotations: vec![],
             big_messages: false,
             capture_sidecars: false,
@@ -343,6 +354,67 @@ impl World {
         self.effective.push(BTreeSet::new());
         self.merged_direct.push(vec![]);
         Ok(idx)
+    }
+
+    /// encrypt a seeded file for group `g` at `node`: (imeta tag, ciphertext, reference plaintext)
+    fn media_encrypt(&mut self, node: usize, g: usize, gid: &GroupId, step_id: u32, tag: u32) -> Result<(Tag, Vec<u8>, Vec<u8>), Outcome> {
+            let size = [0usize, 1, 31, 1024, 70_000][(tag % 5) as usize];
+            let mut r = crate::rng::Rng::new(self.seed ^ ((step_id as u64) << 20) ^ tag as u64);
+            let mime = ["text/plain", "application/pdf", "audio/mpeg", "video/mp4", "image/png", "image/jpeg", "image/gif", "image/webp"][(tag % 8) as usize];
+            let mut mime = mime;
+            let mut data = if mime.starts_with("image/") { sim_image(&mut r, mime) } else { r.bytes(size) };
+            // now and then the same file is sent again (same content hash, another epoch)
+            if tag % 4 == 3 {
+                if let Some((d, m)) = self.last_media.get(&g) {
+                    data = d.clone();
+                    mime = m;
+                    self.probe("media_same_file_sent_again");
+                }
+            }
+            self.last_media.insert(g, (data.clone(), mime));
+            // MIME spellings: the library canonicalises what it accepts
+            let spelled: String = match (tag.wrapping_mul(2_654_435_761) >> 8) % 6 {
+                1 => mime.to_uppercase(),
+                2 => format!("  {mime} "),
+                3 if !mime.starts_with("image/") => format!("{mime}; charset=utf-8"),
+                4 => {
+                    let mut c = mime.chars();
+                    c.next().map(|f| f.to_uppercase().collect::<String>() + c.as_str()).unwrap_or_default()
+                }
+                _ => mime.to_string(),
+            };
+            let mime_canonical = mime;
+            let mime: &str = &spelled;
+            let fname = if (tag.wrapping_mul(40_503) >> 4) % 3 == 1 { format!("File-{}-{tag}.BIN", step_id) } else { format!("file-{}-{tag}.bin", step_id) };
+            let up = with_mdk!(self.nodes[node].mdk(), m => m.media_manager(gid.clone()).encrypt_for_upload(&data, mime, &fname).map(|u| {
+                let t = m.media_manager(gid.clone()).create_imeta_tag(&u, &format!("https://blossom.sim.example/{}", hex::encode(u.encrypted_hash)));
+                (u.encrypted_data, t)
+            }));
+            match up {
+                Ok((enc, t)) => {
+                    // image families are validated against the bytes and may be re-encoded
+                    // (metadata stripped): the reference is what the sender itself decrypts
+                    if spelled != mime_canonical {
+                        self.probe("media_noncanonical_mime_spelling");
+                    }
+                    let reference = if mime_canonical.starts_with("image/") {
+                        let own: Result<Vec<u8>, String> = with_mdk!(self.nodes[node].mdk(), m => (|| {
+                            let mm = m.media_manager(gid.clone());
+                            let rf = mm.parse_imeta_tag(&t).map_err(|e| format!("parse: {e}"))?;
+                            mm.decrypt_from_download(&enc, &rf).map_err(|e| format!("{e}"))
+                        })());
+                        match own {
+                            Ok(b) => b,
+                            Err(e) => return Err(Outcome::new("err", format!("Err(media: sender cannot decrypt its own upload: {e})"))),
+                        }
+                    } else {
+                        data
+                    };
+                    self.probe(if mime_canonical.starts_with("image/") { "media_image_family" } else { "media_other_family" });
+                    Ok((t, enc, reference))
+                }
+                Err(e) => Err(Outcome::new("err", format!("Err(media: {e})"))),
+            }
     }
 
     pub fn gid(&self, g: usize) -> Option<GroupId> {
@@ -860,64 +932,21 @@ impl World {
                 let created_at = Timestamp::from(node_now.saturating_sub(*ts_back as u64));
                 let mut tags = vec![Tag::custom(TagKind::Custom("t".into()), [format!("tag{tag}")])];
                 let mut blob: Option<(Vec<u8>, Vec<u8>)> = None;
-                if *imeta {
-                    let size = [0usize, 1, 31, 1024, 70_000][(*tag % 5) as usize];
-                    let mut r = crate::rng::Rng::new(self.seed ^ ((step.id as u64) << 20) ^ *tag as u64);
-                    let mime = ["text/plain", "application/pdf", "audio/mpeg", "video/mp4", "image/png", "image/jpeg", "image/gif", "image/webp"][(*tag % 8) as usize];
-                    let mut mime = mime;
-                    let mut data = if mime.starts_with("image/") { sim_image(&mut r, mime) } else { r.bytes(size) };
-                    // now and then the same file is sent again (same content hash, another epoch)
-                    if tag % 4 == 3 {
-                        if let Some((d, m)) = self.last_media.get(g) {
-                            data = d.clone();
-                            mime = m;
-                            self.probe("media_same_file_sent_again");
-                        }
+                let mut enc_state: Option<(u64, String)> = None;
+                if let Some((t, enc, reference, st)) = self.pending_uploads.remove(&(node, *g)) {
+                    tags.push(t);
+                    blob = Some((enc, reference));
+                    if pre_state.get(g) != Some(&st) {
+                        self.probe("media_announced_in_a_later_state_than_encrypted");
+                        enc_state = Some(st);
                     }
-                    self.last_media.insert(*g, (data.clone(), mime));
-                    // MIME spellings: the library canonicalises what it accepts
-                    let spelled: String = match (tag.wrapping_mul(2_654_435_761) >> 8) % 6 {
-                        1 => mime.to_uppercase(),
-                        2 => format!("  {mime} "),
-                        3 if !mime.starts_with("image/") => format!("{mime}; charset=utf-8"),
-                        4 => {
-                            let mut c = mime.chars();
-                            c.next().map(|f| f.to_uppercase().collect::<String>() + c.as_str()).unwrap_or_default()
-                        }
-                        _ => mime.to_string(),
-                    };
-                    let mime_canonical = mime;
-                    let mime: &str = &spelled;
-                    let fname = if (tag.wrapping_mul(40_503) >> 4) % 3 == 1 { format!("File-{}-{tag}.BIN", step.id) } else { format!("file-{}-{tag}.bin", step.id) };
-                    let up = with_mdk!(self.nodes[node].mdk(), m => m.media_manager(gid.clone()).encrypt_for_upload(&data, mime, &fname).map(|u| {
-                        let t = m.media_manager(gid.clone()).create_imeta_tag(&u, &format!("https://blossom.sim.example/{}", hex::encode(u.encrypted_hash)));
-                        (u.encrypted_data, t)
-                    }));
-                    match up {
-                        Ok((enc, t)) => {
-                            // image families are validated against the bytes and may be re-encoded
-                            // (metadata stripped): the reference is what the sender itself decrypts
-                            if spelled != mime_canonical {
-                                self.probe("media_noncanonical_mime_spelling");
-                            }
-                            let reference = if mime_canonical.starts_with("image/") {
-                                let own: Result<Vec<u8>, String> = with_mdk!(self.nodes[node].mdk(), m => (|| {
-                                    let mm = m.media_manager(gid.clone());
-                                    let rf = mm.parse_imeta_tag(&t).map_err(|e| format!("parse: {e}"))?;
-                                    mm.decrypt_from_download(&enc, &rf).map_err(|e| format!("{e}"))
-                                })());
-                                match own {
-                                    Ok(b) => b,
-                                    Err(e) => return Outcome::new("err", format!("Err(media: sender cannot decrypt its own upload: {e})")),
-                                }
-                            } else {
-                                data
-                            };
-                            self.probe(if mime_canonical.starts_with("image/") { "media_image_family" } else { "media_other_family" });
+                } else if *imeta {
+                    match self.media_encrypt(node, *g, &gid, step.id, *tag) {
+                        Ok((t, enc, reference)) => {
                             tags.push(t);
                             blob = Some((enc, reference));
                         }
-                        Err(e) => return Outcome::new("err", format!("Err(media: {e})")),
+                        Err(o) => return o,
                     }
                 }
                 let rumor = EventBuilder::new(Kind::Custom(*kind), content.clone())
@@ -938,6 +967,9 @@ impl World {
                         if let Some(b) = blob {
                             self.blobs.insert(origin, b);
                             self.probe("media_encrypted");
+                            if let Some(st) = enc_state {
+                                self.media_enc_state.insert(origin, st);
+                            }
                         }
                         let li = self.ledger.len();
                         self.ledger.push(LedgerMsg {
@@ -973,6 +1005,21 @@ impl World {
                         o
                     }
                     Err(e) => Outcome::new("err", format!("Err({e})")),
+                }
+            }
+            Op::MediaEncrypt { g, tag } => {
+                let Some(gid) = self.gid(*g) else { return Outcome::new("skipped", "no group") };
+                if !self.is_active_member(node, *g) {
+                    return Outcome::new("skipped", "not an active member");
+                }
+                let Some(st) = pre_state.get(g).cloned() else { return Outcome::new("skipped", "no state") };
+                match self.media_encrypt(node, *g, &gid, step.id, *tag) {
+                    Ok((t, enc, reference)) => {
+                        self.pending_uploads.insert((node, *g), (t, enc, reference, st));
+                        self.probe("media_encrypted_for_a_later_announcement");
+                        Outcome::new("ok", "file encrypted, upload pending")
+                    }
+                    Err(o) => o,
                 }
             }
             Op::AddMembers { g, who } => {
